@@ -25,9 +25,16 @@ const (
 func c09Name(i int) string { return "@T" + string([]byte{byte('0' + i)}) }
 
 // c09TypeText renders type i as an object whose properties are its outgoing edges.
-func c09TypeText(i, n int, edge [][]int) string {
+func c09TypeText(i, n int, edge [][]int) string { return c09TypeTextDup(i, n, edge, false) }
+
+// c09TypeTextDup: with dup, type 0 gets a second required property "q1": @T1 (a sibling branch to the same type).
+func c09TypeTextDup(i, n int, edge [][]int, dup bool) string {
 	props := []string{"\"v\": 1"}
 	anns := []string{""}
+	if dup && i == 0 && n > 1 {
+		props = append(props, "\"q1\": "+c09Name(1))
+		anns = append(anns, "")
+	}
 	for j := 0; j < n; j++ {
 		k := edge[i][j]
 		if k == eNone {
@@ -83,10 +90,11 @@ func ZZC09Graph() {
 			}
 		}
 	}
+	dup := v.Param("dup", 0) != 0 && n > 1 && v.Choose(0, 1) == 1
 	root := jschema.New("root", "@T0")
 	desc := ""
 	for i := 0; i < n; i++ {
-		t := c09TypeText(i, n, edge)
+		t := c09TypeTextDup(i, n, edge, dup)
 		desc += c09Name(i) + "=" + t + " "
 		v.Assert(root.AddType(c09Name(i), jschema.New(c09Name(i), t)) == nil, "C09/addtype-failed")
 	}
@@ -107,6 +115,9 @@ func ZZC09Graph() {
 					ok = false
 				}
 			}
+			if dup && i == 0 && !inh[1] {
+				ok = false
+			}
 			if ok {
 				inh[i] = true
 			}
@@ -120,7 +131,7 @@ func ZZC09Graph() {
 			if i != j && (edge[i][j] == eReq || edge[i][j] == eReqFalse || edge[i][j] == eOrLoop) {
 				multi = "cycle-through-several-types"
 			}
-			if edge[i][j] == eOrLoop {
+			if edge[i][j] == eOrLoop || dup {
 				multi = "cycle-through-several-types"
 			}
 		}
@@ -132,7 +143,7 @@ func ZZC09Graph() {
 	for round := 0; round < n; round++ {
 		for i := 0; i < n; i++ {
 			for j := 0; j < n; j++ {
-				if reach[i] && edge[i][j] != eNone {
+				if reach[i] && (edge[i][j] != eNone || (dup && i == 0 && j == 1)) {
 					reach[j] = true
 				}
 			}
